@@ -26,31 +26,42 @@ inductive RootOf : Expr → Sym → Prop where
   | assign {k : Kind} {l : Expr} {s x : Sym} {r : List Expr} : k ∈ assignKinds → RootOf l s → RootOf (.node k x (l :: r)) s
   | preIncDec {k : Kind} {a : Expr} {s x : Sym} {r : List Expr} : k ∈ preIncDecKinds → RootOf a s → RootOf (.node k x (a :: r)) s
 
-/-- `Writes P e s`: evaluating `e` in program `P` may write variable `s`:
+/-- `CalleeIs dot c f`: the callee expression `c` of a call names function `f`: an identifier, or -- with `dot` -- the
+    member `P.f` of a process (functions of the process' template, callable from queries).  The Boolean selects the
+    spec with (`true`, full) or without (`false`) process-dot calls. -/
+inductive CalleeIs (dot : Bool) : Expr → Sym → Prop where
+  | ident (f : Sym) (subs : List Expr) : CalleeIs dot (.node .kIDENTIFIER f subs) f
+  | processDot (f : Sym) (subs : List Expr) : dot = true → f ≠ 0 → CalleeIs dot (.node .kDOT f subs) f
+
+/-- `Writes dot P e s`: evaluating `e` in program `P` may write variable `s`:
     * `direct`  an assignment / increment / decrement whose target may denote `s`;
     * `sub`     a sub-expression may;
     * `callBody` a call of `f`, and some expression of `f`'s body -- in any statement form, local initialisers included --
                 may write `s`, which is neither a local nor a parameter of `f` (so: through any chain of calls);
     * `callRef` a call of `f` handing the lvalue `a` to a non-constant reference parameter `p` that `f`'s body may write
                 (directly or by handing `p` on). -/
-inductive Writes (P : List FunDecl) : Expr → Sym → Prop where
+inductive Writes (dot : Bool) (P : List FunDecl) : Expr → Sym → Prop where
   | direct {k : Kind} {l : Expr} {s x : Sym} {r : List Expr} :
-      k ∈ writingKinds → RootOf l s → Writes P (.node k x (l :: r)) s
+      k ∈ writingKinds → RootOf l s → Writes dot P (.node k x (l :: r)) s
   | sub {k : Kind} {x s : Sym} {subs : List Expr} {e : Expr} :
-      e ∈ subs → Writes P e s → Writes P (.node k x subs) s
-  | callBody {k : Kind} {x f s : Sym} {fsubs args : List Expr} {fd : FunDecl} {b : Expr} :
-      k ∈ callKinds → fd ∈ P → fd.name = f → b ∈ exprsOf fd.body → Writes P b s → s ∉ fd.locals → s ∉ fd.params →
-      Writes P (.node k x (.node .kIDENTIFIER f fsubs :: args)) s
-  | callRef {k : Kind} {x f s p : Sym} {fsubs args : List Expr} {fd : FunDecl} {a b : Expr} :
-      k ∈ callKinds → fd ∈ P → fd.name = f → (a, p, true) ∈ args.zip (fd.params.zip fd.refNonConst) →
-      b ∈ exprsOf fd.body → Writes P b p → RootOf a s →
-      Writes P (.node k x (.node .kIDENTIFIER f fsubs :: args)) s
+      e ∈ subs → Writes dot P e s → Writes dot P (.node k x subs) s
+  | callBody {k : Kind} {x f s : Sym} {c : Expr} {args : List Expr} {fd : FunDecl} {b : Expr} :
+      k ∈ callKinds → CalleeIs dot c f → fd ∈ P → fd.name = f → b ∈ exprsOf fd.body → Writes dot P b s →
+      s ∉ fd.locals → s ∉ fd.params → Writes dot P (.node k x (c :: args)) s
+  | callRef {k : Kind} {x f s p : Sym} {c : Expr} {args : List Expr} {fd : FunDecl} {a b : Expr} :
+      k ∈ callKinds → CalleeIs dot c f → fd ∈ P → fd.name = f → (a, p, true) ∈ args.zip (fd.params.zip fd.refNonConst) →
+      b ∈ exprsOf fd.body → Writes dot P b p → RootOf a s → Writes dot P (.node k x (c :: args)) s
 
-/-- the expression can modify some variable -/
-def MayWrite (P : List FunDecl) (e : Expr) : Prop := ∃ s, Writes P e s
+/-- the expression can modify some variable (`dot = true`: calls `P.f()` of process functions included) -/
+def MayWrite (dot : Bool) (P : List FunDecl) (e : Expr) : Prop := ∃ s, Writes dot P e s
 
 /-! ### the write-free twin: no assignment / increment anywhere, only calls of functions that change nothing and take
     no non-constant reference parameter -/
+
+/-- an analysed function that changes nothing and has no non-constant reference parameter (or no function at all) -/
+def entryPure : Option FunInfo → Bool
+  | none => true
+  | some fi => fi.changes.isEmpty && fi.refNonConst.all (fun r => !r)
 
 mutual
 def pureExpr (env : Env) : Expr → Bool
@@ -58,10 +69,7 @@ def pureExpr (env : Env) : Expr → Bool
     !writingKinds.contains k &&
     (if callKinds.contains k then
        match subs with
-       | f :: _ =>
-         match env.find (getSymbol f) with
-         | some fi => fi.changes.isEmpty && fi.refNonConst.all (fun r => !r)
-         | none => true
+       | f :: _ => entryPure (env.find (getSymbol f)) && entryPure (env.find (dotSym f))
        | [] => true
      else true) && pureExprL env subs
 def pureExprL (env : Env) : List Expr → Bool
@@ -184,6 +192,7 @@ inductive Reads (P : List FunDecl) : Expr → Sym → Prop where
   | callBody {x f s : Sym} {fsubs args : List Expr} {fd : FunDecl} {b : Expr} :
       fd ∈ P → fd.name = f → b ∈ exprsOf fd.body → Reads P b s → s ∉ fd.locals → s ∉ fd.params →
       Reads P (.node .kFUN_CALL x (.node .kIDENTIFIER f fsubs :: args)) s
+  -- (compile-time contexts cannot mention processes, so `P.f()` callees do not occur in C13's contexts)
 
 /-- `DependsOn P D e s`: the value of `e` depends on `s` -- read directly or through function bodies, or through the
     initialiser of a declared variable it reads, transitively. -/
@@ -211,6 +220,15 @@ end
 inductive BuilderDep (D : List VarDecl) : Expr → Sym → Prop where
   | direct {e : Expr} {s : Sym} : Reads [] e s → BuilderDep D e s
   | viaInit {e : Expr} {k s : Sym} {d : VarDecl} : BuilderDep D e k → d ∈ D → d.sym = k → Reads [] d.init s → BuilderDep D e s
+
+/-- TypeChecker::visitInstance, `$Incompatible_argument`: verdict for one argument given the parameter's mode -/
+def argRejects (cfg : Cfg) (ref constant computable uniqueRef : Bool) : Bool :=
+  (cfg.argValueNeedsCtc && !ref && !computable) || (ref && !constant && !uniqueRef) ||
+  (cfg.argConstRefNeedsCtc && ref && constant && !computable)
+
+/-- Shapes at which the write analysis of the current source misses a write (computed; empty = none) -/
+def c11Exceptions (cfg : Cfg) : List String :=
+  if !cfg.writeCallResolvesDot then ["call-through-process-dot"] else []
 
 /-- Shapes at which the analysis of the current source lets a non-constant value through (computed from the
     generated configuration; empty = none).  Each is confirmed against the real library by the check. -/
